@@ -29,8 +29,13 @@ Record clock := { clk_date : bytes; clk_filetime : N }.
 
 Inductive pstate := PHttp (h : http_st) | PRpc (r : rpc_st).
 
-Record tcb := { t_smack : N; t_proto : N; t_pstate : option pstate }.
-Definition tcb_new : tcb := {| t_smack := BASE_STATE; t_proto := PROTO_NONE; t_pstate := None |}.
+(* [t_pending]: the bytes received while the protocol was not identified yet (bounded) *)
+Record tcb := { t_smack : N; t_proto : N; t_pstate : option pstate; t_pending : bytes }.
+Definition tcb_new : tcb :=
+  {| t_smack := BASE_STATE; t_proto := PROTO_NONE; t_pstate := None; t_pending := [] |}.
+
+(* upper bound of the bytes kept per TCP flow while its protocol is unknown *)
+Definition PENDING_MAX : N := 64.
 
 Definition table := list (N * tcb).
 
@@ -68,7 +73,8 @@ Definition dispatch (E : env) (clk : clock) (ci : cinfo) (id : N) (t : option tc
       | Ok h =>
         do hr <- http_repl (e_http_tbl E) (e_http_pre E) (e_http_post E) (clk_date clk) h data;
         let '(h', r) := hr in
-        Ok (ci, Some {| t_smack := t_smack tc; t_proto := t_proto tc; t_pstate := Some (PHttp h') |}, r)
+        Ok (ci, Some {| t_smack := t_smack tc; t_proto := t_proto tc; t_pstate := Some (PHttp h');
+                       t_pending := t_pending tc |}, r)
       end
     | None =>
       do hr <- http_repl (e_http_tbl E) (e_http_pre E) (e_http_post E) (clk_date clk) http_new data;
@@ -91,7 +97,8 @@ Definition dispatch (E : env) (clk : clock) (ci : cinfo) (id : N) (t : option tc
         | Panic s => Panic s
         | Ok r0 =>
           let '(r', out) := rpc_repl_tcp r0 ip port data in
-          Ok (ci, Some {| t_smack := t_smack tc; t_proto := t_proto tc; t_pstate := Some (PRpc r') |}, out)
+          Ok (ci, Some {| t_smack := t_smack tc; t_proto := t_proto tc; t_pstate := Some (PRpc r');
+                       t_pending := t_pending tc |}, out)
         end
       | None => Ok (ci, None, snd (rpc_repl_tcp (rpc_new R_FRAG) ip port data))
       end
@@ -108,19 +115,39 @@ Definition dispatch (E : env) (clk : clock) (ci : cinfo) (id : N) (t : option tc
     do r <- smb2_repl (e_smb_neg E) (e_smb_chal E) (clk_filetime clk) data; Ok (ci, t, r)
   else
     Ok (ci, match t with
-            | Some tc => Some {| t_smack := t_smack tc; t_proto := PROTO_NONE; t_pstate := t_pstate tc |}
+            | Some tc => Some {| t_smack := t_smack tc; t_proto := PROTO_NONE; t_pstate := t_pstate tc;
+                                 t_pending := t_pending tc |}
             | None => None
             end, None).
 
-(* proto::repl over TCP: identification is incremental and sticky *)
+(* proto::repl over TCP: identification is incremental and sticky.  While nothing is
+   identified the bytes received are kept in [t_pending] (at most PENDING_MAX, else the
+   buffer is dropped); the segment that completes a signature is handed to the handler
+   joined to the kept bytes, so that the handler sees the stream from its first byte.
+   [tcp_identify] is the first part of the TCP branch of proto::repl: the updated
+   control block and the data the handler is given.  ([search_next] returning [None]
+   is the implementation's NO_MATCH.) *)
+Definition tcp_identify (E : env) (tc : tcb) (data : bytes) : tcb * bytes :=
+  if t_proto tc =? PROTO_NONE then
+    let '(id, st, _) := search_next (e_proto_tbl E) (t_smack tc) data in
+    match id with
+    | None =>
+      ({| t_smack := st; t_proto := NO_MATCH; t_pstate := t_pstate tc;
+          t_pending := if lenN (t_pending tc) + lenN data <=? PENDING_MAX
+                       then t_pending tc ++ data else [] |}, data)
+    | Some i =>
+      ({| t_smack := st; t_proto := i; t_pstate := t_pstate tc; t_pending := [] |},
+       match t_pending tc with
+       | [] => data
+       | _ :: _ => t_pending tc ++ data
+       end)
+    end
+  else (tc, data).
+
 Definition proto_repl_tcp (E : env) (clk : clock) (ci : cinfo) (tc : tcb) (data : bytes)
   : res (cinfo * tcb * option bytes) :=
-  let tc1 :=
-    if t_proto tc =? PROTO_NONE then
-      let '(id, st, _) := search_next (e_proto_tbl E) (t_smack tc) data in
-      {| t_smack := st; t_proto := id_of id; t_pstate := t_pstate tc |}
-    else tc in
-  do r <- dispatch E clk ci (t_proto tc1) (Some tc1) data;
+  let '(tc1, data1) := tcp_identify E tc data in
+  do r <- dispatch E clk ci (t_proto tc1) (Some tc1) data1;
   let '(ci', t', out) := r in
   Ok (ci', match t' with Some x => x | None => tc1 end, out).
 
